@@ -646,7 +646,7 @@ func TestVxC04Session(t *testing.T) {
 			cl := vnode.NewCluster(vxSpecs(1, 1))
 			node := cl.Nodes()[0]
 			node.CompressResponses = true
-			skipped, stale := false, false
+			skipped, stale, reexec := false, false, false
 			prepares := 0
 			node.Handler = func(rc *vnode.ReqCtx) {
 				switch rc.Req.Kind {
@@ -669,6 +669,7 @@ func TestVxC04Session(t *testing.T) {
 						m.NoMetadata = true
 						out.Meta = &m
 						stale = true
+						reexec = true // the driver forgets its description and executes the SELECT once more
 					} else if r.Kind == "ROWS" && rc.Req.Kind == "EXECUTE" && rc.Req.Params.SkipMeta && c.Stale && len(r.Meta.Columns) > 0 {
 						stale = true // the node knows the table has changed: it sends the metadata of these rows
 					} else if r.Kind == "ROWS" && rc.Req.Kind == "EXECUTE" && rc.Req.Params.SkipMeta {
@@ -728,8 +729,12 @@ func TestVxC04Session(t *testing.T) {
 				}
 			}()
 			if r.TraceHex != "" {
-				if len(tr.ids) != 1 || hex.EncodeToString(tr.ids[0]) != r.TraceHex {
-					return fmt.Errorf("tracer got %x, want one call with %s", tr.ids, r.TraceHex)
+				wantCalls := 1
+				if reexec {
+					wantCalls = 2 // two executions on the server, each traced
+				}
+				if len(tr.ids) != wantCalls || hex.EncodeToString(tr.ids[0]) != r.TraceHex || hex.EncodeToString(tr.ids[len(tr.ids)-1]) != r.TraceHex {
+					return fmt.Errorf("tracer got %x, want %d call(s) with %s", tr.ids, wantCalls, r.TraceHex)
 				}
 			}
 			switch r.Kind {
